@@ -79,7 +79,7 @@ CLAIMED["C11"] = dict(
 
 CLAIMED["C12"] = dict(
     text="The listener machine keeps the implementation's two process-wide tables as state that persists between loads. TLC explores every history "
-         "of up to K loads over 18 scripts (valid, template, tdm, failing at each stage incl. inside loops/includes/metadata, scripts whose options "
+         "of up to K loads over 19 scripts (valid, template, tdm, failing at each stage incl. inside loops/includes/metadata, scripts whose options "
          "mention names, a nested include), with the included files edited or not between two loads (file-system epochs), and checks Independent: every outcome equals the outcome from a pristine process; a teeth run with the clearing switched "
          "off must find the counterexample. Each history is replayed in a freshly forked interpreter with real files; every outcome is compared with "
          "the specification's and the returned programs must share no mutable object.",
